@@ -31,6 +31,18 @@ static std::vector<std::vector<OpKind>> shape(long s)
   }
 }
 
+// a script as a number in base 9: digit d (1..8) = OpKind d-1, most significant digit first
+static std::vector<OpKind> decode_script(long code)
+{
+  std::vector<OpKind> rev;
+  while (code > 0)
+  {
+    if (code % 9) rev.push_back(static_cast<OpKind>(code % 9 - 1));
+    code /= 9;
+  }
+  return std::vector<OpKind>(rev.rbegin(), rev.rend());
+}
+
 template <typename Opt>
 static Scenario make_c08(std::map<std::string, long> const& cfg)
 {
@@ -39,6 +51,12 @@ static Scenario make_c08(std::map<std::string, long> const& cfg)
   constexpr bool bounded = Opt::queue_type == QueueType::BoundedDropping;
   Scenario sc;
   auto sh = std::make_shared<std::vector<std::vector<OpKind>>>(shape(cfg.count("shape") ? cfg.at("shape") : 0));
+  if (cfg.count("shape") && cfg.at("shape") < 0)
+  {
+    sh->clear();
+    for (char const* k : {"t1", "t2"})
+      if (cfg.count(k) && cfg.at(k) > 0) sh->push_back(decode_script(cfg.at(k)));
+  }
   auto la = std::make_shared<L*>(nullptr);
   auto lb = std::make_shared<L*>(nullptr);
   sc.setup = [la, lb](World& w, Scenario const& s)
